@@ -449,6 +449,11 @@ def nontrivial(sc, o):
 
 
 def correspondence(ctx):
+    # the runner is not in the cone of props/C06.v: make sure it is compiled against the current model
+    ok, log, failed = core.compile_cone(core.coq_cone("run/RunC06.v"))
+    if not ok:
+        return {"evaluations": 0, "distinct_nontrivial": 0, "rule": "", "samples": [], "distribution": {}, "failing": [],
+                "error": "runner does not compile (%s):\n%s" % (failed, log[-2000:])}
     rng = ctx.rng("corr")
     cases = gen_cases(rng, ctx.n(90, 800))
     terms, keep, dist, nt = [], [], {}, set()
